@@ -642,7 +642,7 @@ func (ex *Exec) applyContract(st *State, site ssa.CallInstruction, sel string, c
 	}
 	// panic effects
 	for _, p := range con.Panics {
-		if !st.panicOK[p] {
+		if !st.panicOK[p] && !st.panicOK["any"] {
 			ex.oblige(st, "panic", "may-panic."+p, siteI, tFalse, sel+" may panic with "+p+", which is not in this function's panics clause")
 		}
 	}
